@@ -512,7 +512,7 @@ theorem schema_on_reference_engine (g : Globals) (hg : g.dialect = .mysql) (hio 
         ∀ s ∈ tbN.idxs, ∀ o ∈ tbO.idxs, o.name = s.name → o ≠ s → ∃ c ∈ o.cols, c ∉ dc) ∧
       (∀ s ∈ tbN.fks, ∀ o ∈ tbO.fks, s.name = o.name → s = o)) :
     ∃ up, modelUp g old new = .ok up ∧ c01 g.ignoreOrder dbO dbN up false = .ok () := by
-  obtain ⟨d, out, hd, hU, ⟨db', he, heq⟩, hj⟩ := schema_spec_up g hg hio rc old new dbO dbN ho hn hpo hpn heo hen hdef hboth
+  obtain ⟨d, out, hd, hU, ⟨db', he, heq, _⟩, hj⟩ := schema_spec_up g hg hio rc old new dbO dbN ho hn hpo hpn heo hen hdef hboth
   refine ⟨out.flatten, ?_, ?_⟩
   · unfold modelUp
     simp only [hd, hU, bind, Except.bind, pure, Except.pure]
